@@ -15,6 +15,14 @@ TEXT = {
             "step; order rejections must leave the snapshot unchanged.",
             "Trusts the op interpreter's knowledge of which calls are documented rejections; depth<=3, shapes<=6; unowned "
             "trees depth<=2 (see DESIGN section 5)."),
+    "C02": ("Hypothesis PBT over generated histories mixing mutators, transforms-as-rules and read-only operations; "
+            "rank-list invariant after every step",
+            "Generated histories of up to 20 steps on tensors from every constructor: insertions at any depth, populate "
+            "loops, dense reference iteration, fiber assignment, clear, interleaved with transforms that replace the tensor "
+            "under test (splits, swizzle, swap, flatten/unflatten, merge, updates, YAML, deepcopy) and read-only "
+            "operations; rank lists compared with a raw walk (ids, owners, chaining) plus Format.getRank and clearStats.",
+            "After a split the history only writes at existing points; histories continue on results with integer "
+            "coordinates and authoritative shape."),
     "C03": ("Hypothesis PBT over accessor histories vs a dict model (stateful testing with aliasing handles)",
             "Generated histories of up to 30 reads / references / writes / handle re-use / position lookups / start_pos "
             "shortcuts on trees of depth 1-3; the full content is compared with a dict model after every step and every "
